@@ -129,6 +129,7 @@ class RecSolver(Solver):
 
     def _on_step(self, iterate, next_iterate, accept):
         self.cb.append((iterate, next_iterate, bool(accept), self.rho))
+        return len(self.cb)  # what an observer returns must not matter (a tally returning its running count)
 
     def _compute_step(self, controller, iterate, rho, dt, display, timer):
         res = super()._compute_step(controller, iterate, rho, dt, display, timer)
